@@ -27,7 +27,27 @@ pub trait NamingContext {
 
     /// Apply serde naming convention transformations
     fn apply_naming_convention(&self, field_name: &str, convention: RenameRule) -> String {
-        convention.apply_to_field(field_name)
+        let converted = match convention {
+            // serde_rename_rule lower-cases the first *byte* of the PascalCase form, which panics
+            // for names that start with a non-ASCII letter (`über`) or consist of underscores
+            // only (`__`, whose PascalCase form is empty). Lower-case the first character.
+            RenameRule::CamelCase => {
+                let pascal = RenameRule::PascalCase.apply_to_field(field_name);
+                let mut chars = pascal.chars();
+                match chars.next() {
+                    Some(first) => first.to_ascii_lowercase().to_string() + chars.as_str(),
+                    None => String::new(),
+                }
+            }
+            other => other.apply_to_field(field_name),
+        };
+        // A name made of underscores only has no words to convert: keep it as it is rather than
+        // producing an empty identifier.
+        if converted.is_empty() {
+            field_name.to_string()
+        } else {
+            converted
+        }
     }
 
     /// Compute the serialized name for a field based on serde attributes
